@@ -342,6 +342,7 @@ impl <N: NumericOps> ArraySumProdDiff<N> for Array<N> {
 
             let axis = axis.unwrap_or(-1);
             let axis = self.normalize_axis(axis);
+            self.axis_in_bounds(axis)?;
 
             let parts = self.get_shape()?.remove_at(axis).into_iter().product();
             let mut partial = self
